@@ -107,8 +107,10 @@ def negation_edge_patterns():
     for prefix in PREFIXES:
         for first in (prefix, prefix + "x", prefix + "-a", prefix.upper(), "x" + prefix):
             out.append(first)
+            # (bodies whose first word begins with a LETTER of a negation word - dhcp/ntp/on for undo and no, elt for
+            #  delete, vrm for remove - are there for code that strips characters where it should strip a word)
             for body in (["a"], ["*"], ["a", "*"], ["*", "~"], ["a", "~"], [prefix], [prefix, "a"], ["x" + prefix, "a"],
-                         ["a", prefix, "*"]):
+                         ["a", prefix, "*"], ["dhcp"], ["ntp", "*"], ["on", "a"], ["elt", "*"], ["vrm"]):
                 out.append(" ".join([first] + body))
     return sorted(set(out))
 
@@ -128,6 +130,7 @@ def run_r(block, ctx):
         rx = syntax.compile_row_regexp(p)
         check_pair(p, text, rx, ctx.violation)
         check_ordering_compiled(p, text, ctx)
+        check_acl_compiled(p, text, ctx)
         if key is None:
             continue
         ctx.nontrivial += 1
@@ -179,6 +182,46 @@ def check_ordering_compiled(p, text, ctx):
                                   {"part": "R", "pattern": p, "vendor": vendor, "row": r},
                                   "rule %r: reverse_regexp %r, expected the pattern of %r (%r); row %r"
                                   % (p, attrs["reverse_regexp"].pattern, plain, want_rx.pattern, r))
+                    break
+
+
+def check_acl_compiled(p, text, ctx):
+    """the two forms a compiled ACL rule recognises, as the real compile_acl_text builds them: the rows of the rule as
+    written, and its negation - for a rule written negated ('undo X') the rows of X: the leading negation word and its
+    blank are taken off once, nothing else is touched"""
+    from annet.annlib.rbparser import syntax
+    from annet.annlib.rbparser.acl import compile_acl_text
+    if "(?i)" in p:
+        return
+    for vendor, prefix in ORDER_VENDOR_PREFIX.items():
+        try:
+            a = compile_acl_text(p + "\n", vendor)
+        except Exception as e:  # noqa
+            ctx.violation({"kind": "acl-compile-raises", "exc": type(e).__name__}, {"part": "R", "pattern": p, "vendor": vendor}, repr(e)[:200])
+            continue
+        rules = list(a["local"].values()) + list(a["global"].values())
+        if len(rules) != 1:
+            continue
+        attrs = rules[0]["attrs"]
+        toks = p.split()
+        plain = " ".join(toks[1:]) if (len(toks) > 1 and toks[0] == prefix) else prefix + " " + p
+        try:
+            want_dir, want_rev = syntax.compile_row_regexp(p), syntax.compile_row_regexp(plain)
+        except Exception:  # noqa
+            continue
+        ctx.evals += 1
+        ctx.extra["acl_forms_compiled"] += 1
+        stripped = text[len(prefix):].lstrip() if text.startswith(prefix + " ") else None
+        probes = [text, prefix + " " + text, prefix + " " + prefix + " " + text] + ([stripped, stripped[1:]] if stripped else [])
+        for what, got, want in (("direct", attrs["direct_regexp"], want_dir), ("reverse", attrs["reverse_regexp"], want_rev)):
+            if got.pattern == want.pattern:
+                continue
+            for r in probes:
+                if bool(got.match(r)) != bool(want.match(r)):
+                    ctx.violation({"kind": "acl-%s-form" % what, "shape": rulelang.shape(p), "vendor": vendor},
+                                  {"part": "R", "pattern": p, "vendor": vendor, "row": r},
+                                  "ACL rule %r: %s_regexp %r, expected the pattern of %r (%r); row %r"
+                                  % (p, what, got.pattern, p if what == "direct" else plain, want.pattern, r))
                     break
 
 
@@ -571,6 +614,18 @@ def replay(case):
         if row != exp:
             v({"kind": "params-not-split", "via": "_parse_raw_rule"}, case, "row=%r expected=%r" % (row, exp))
         return out
+    if case.get("part") == "R" and "vendor" in case:
+        import collections
+        from mc.ref import regexgen
+
+        class CR:  # minimal ctx
+            evals = 0
+            extra = collections.Counter()
+            violation = staticmethod(v)
+        text = (regexgen.synth_row(case["pattern"]) or (case.get("row", "a"), None))[0]
+        check_ordering_compiled(case["pattern"], text, CR)
+        check_acl_compiled(case["pattern"], text, CR)
+        return [(sg, d) for sg, d in out if sg.get("vendor") == case["vendor"]]
     if case.get("part") == "A":
         p = case["pattern"]
         if "row" in case and "prefix" not in case:
